@@ -275,10 +275,16 @@ def race_pass(cid, injects, pkg, scenarios, budget=60, keyfn=None, rewrites=()):
         lp = os.path.join(d, "racelog-" + re.sub(r"[^A-Za-z0-9]", "_", sc))
         for f in glob.glob(lp + "*"):
             os.remove(f)
-        r = run_worker(w, ["-scenario", sc, "-budget", str(budget)], budget + 300,
+        r = run_worker(w, ["-scenario", sc, "-budget", str(budget)], budget + 120,
                        env={"GORACE": "halt_on_error=0 exitcode=0 log_path=" + lp, "GOMAXPROCS": "8"})
         if "error" in r:
             m = re.search(r"fatal error: (concurrent map[^\n]*)\n(?:.*\n)*?goroutine \d+ \[running\]:\n(\S+)\(", r["error"])
+            if not m and not race_reports(lp) and r["error"].startswith("worker timeout"):
+                # an adjunct run must never turn the verdict of the deciding search into a harness error: a companion
+                # that does not finish (e.g. the code under test no longer lets a tunnel end) is inconclusive
+                out.append({"name": sc, "evaluations": 0, "exhaustive": False, "adjunct": "go race detector, free-running",
+                            "cap": "companion did not finish within its time limit: inconclusive", "violations": [], "viol_counts": {}})
+                continue
             if not m and not race_reports(lp):
                 raise HarnessError(r["error"])
             # the Go runtime itself stopped the process on an unsynchronised map access: that is a verdict, not a harness error
